@@ -22,7 +22,10 @@ class Spec:
     """What a property needs: Lean obligations and a correspondence stream."""
 
     def __init__(self, prop, title, lean_targets, theorems, imports, gen, view=None, predicate=None, rule="", assumptions=(),
-                 extra=None, partial=None):
+                 extra=None, partial=None, batch_predicate=None):
+        self.batch_predicate = batch_predicate
+        if batch_predicate and not predicate:
+            predicate = lambda case, im, m, ctx: batch_predicate([case], [im], ctx)[0]  # noqa: E731
         self.prop = prop
         self.title = title
         self.lean_targets = lean_targets
@@ -170,7 +173,8 @@ def run_check(spec, tier, seed):
     mismatches = []
     bad_ops = 0
     pred_evals = 0
-    for c, m, im in zip(cases, model, impl):
+    batch_res = spec.batch_predicate(cases, impl, ctx) if spec.batch_predicate and hdir else None
+    for ci, (c, m, im) in enumerate(zip(cases, model, impl)):
         if any(l == "bad-op" for l in m):
             bad_ops += 1
         if im is None:
@@ -180,7 +184,7 @@ def run_check(spec, tier, seed):
         if spec.predicate:
             # the property predicate is evaluated on the implementation's own output for every case
             try:
-                pv = spec.predicate(c, im, m, ctx)
+                pv = batch_res[ci] if batch_res is not None else spec.predicate(c, im, m, ctx)
             except Exception:  # noqa
                 pv = None
             if pv is not None:
